@@ -217,6 +217,13 @@ def run_history(ctx, history, label, lite=None, nmax=12):
                     c.execute('SELECT k, s FROM t WHERE k < ? ORDER BY k', (size,))
                     c.arraysize = mc.arraysize
                     sq[cid] = c
+            elif kind == 'execmany':
+                # executemany(statement, parameter sets): a new execution for every set; the cursor ends up holding the last one
+                sizes = list(op[2])
+                cur.executemany('SELECT k, s FROM #t WHERE k < %s', [(z,) for z in sizes])
+                if sizes:
+                    mc.execute(table_rows[:sizes[-1]], ['k', 's'], [int, str])
+                    sq[cid] = None
             elif kind == 'arraysize':
                 cur.arraysize = op[2]
                 mc.arraysize = op[2]
@@ -354,8 +361,10 @@ def run(ctx):
                     ncur += 1
                 else:
                     hist.append(('cexec', cid, rng.choice(sizes)))
-            elif r < 0.25:
+            elif r < 0.22:
                 hist.append(('exec', cid, rng.choice(sizes)))
+            elif r < 0.25:
+                hist.append(('execmany', cid, [rng.choice(sizes) for _ in range(rng.choice([1, 2, 3]))]))
             elif r < 0.45:
                 hist.append(('one', cid))
             elif r < 0.65:
@@ -389,7 +398,7 @@ def replay(ctx, case):
     engine.bq()
     install_contracts()
     hist = [tuple(h) for h in case['history']]
-    nmax = BIG if any(len(h) > 2 and isinstance(h[2], int) and h[2] > 12 for h in hist if h[0] in ('exec', 'cexec')) else 12
+    nmax = BIG if any(len(h) > 2 and max(h[2] if isinstance(h[2], (list, tuple)) else [h[2]], default=0) > 12 for h in hist if h[0] in ('exec', 'cexec', 'execmany')) else 12
     problems, _ = run_history(ctx, hist, 'replay', None, nmax=nmax)
     report(ctx, problems, hist)
 
